@@ -19,7 +19,7 @@ WHAT I WANT
 1. A change (a few lines, in the library source under stable_baselines3/, not in tests) that makes the property FALSE for some inputs/histories/configurations, of the kind a real developer could introduce by mistake (an optimisation, a refactoring, an off-by-one, a wrong index/field, a stale variable, a dropped mask, a changed order of operations, two sites that each look fine alone).
 2. It must need something SPECIFIC to manifest — e.g. a wrap-around, a particular episode shape (length-1 episode, terminated and truncated together, episode ending exactly at a rollout boundary), more than one sub-environment, a size that is not divisible, a second call, a particular option combination, an unusual but legal input — NOT something ordinary use or the existing tests would expose at once.{(' Focus: ' + hint) if hint else ''}
 3. The existing tests must still pass with your change: run at least the test files that exercise the code you touched (e.g. `cd {wt} && OMP_NUM_THREADS=1 /venv/bin/python -m pytest -q -p no:cacheprovider -x tests/test_<relevant>.py`); tests that already fail without your change (missing optional deps such as tensorboard) do not count.
-4. A demonstration: a small stand-alone script `{wt}/demo_{pid}.py` that exits 0 and prints PASS on the ORIGINAL code and exits 1 and prints FAIL on the CHANGED code, by checking the property directly through the library's public API (no access to private test helpers needed). Verify both: run it with your change, then undo the change with `git diff > /tmp/my.diff; git apply -R /tmp/my.diff`, run it on the original, then re-apply with `git apply /tmp/my.diff` (do NOT use `git stash`: the stash is shared with other worktrees).
+4. A demonstration: a small stand-alone script `{wt}/demo_{pid}.py` that exits 0 and prints PASS on the ORIGINAL code and exits 1 and prints FAIL on the CHANGED code, by checking the property directly through the library's public API (no access to private test helpers needed). Verify both: run it with your change, then undo the change with `git diff -- stable_baselines3 > {wt}/my.diff; git apply -R {wt}/my.diff`, run it on the original, then re-apply with `git apply {wt}/my.diff` (do NOT use `git stash`: the stash is shared with other worktrees).
 5. Save `git diff > {wt}/patch_{pid}.diff` (only the library change, not the demo).
 
 Reply with: the diff, why it breaks the property, what it needs to manifest, which tests you ran (and that they pass), and the two demo outputs. Keep the worktree as it is at the end (change applied, demo and patch files present).""")
